@@ -33,6 +33,7 @@ struct Gen
         p.ops.push_back(std::move(o));
     }
     void set_init(int64_t h, int64_t N, int bad = BAD_NONE, int only_start = 0) { op(OP_SET_INIT, {h, N, rnd(1u << 30), rnd(2), bad, rnd(64), rnd(8), only_start}); }
+    double reenter_rate = 0.0;
     void configure(int64_t h, bool maps, int mask = -1)
     {
         int64_t fm = mask >= 0 ? mask : (r.chance(0.15) ? 0 : (r.chance(0.15) ? 255 : rnd(256)));
@@ -58,6 +59,7 @@ struct Gen
     {
         int64_t a0 = rnd(1u << 30), a1 = ws_sel >= 0 ? ws_sel : rnd(5), a2 = exmode >= 0 ? exmode : rnd(6), a3 = rnd(1u << 30), a4 = rnd(3), a5 = r.chance(0.75) ? 1 : 0;
         int64_t af = r.chance(abort_rate) ? 1 + rnd(5) : 0, ac = rnd(1u << 20);
+        if (af == 0 && r.chance(reenter_rate)) ac |= (1 << 21);
         op(OP_EVAL, {h, a0, xmode, a1, a2, a3, a4, a5, checks, af, ac});
     }
 };
@@ -86,6 +88,16 @@ inline Plan gen_plan(uint64_t seed, uint64_t index, Tier tier, int profile, bool
     {
         g.max_N = 6;
         g.abort_rate = r.chance(0.5) ? 0.3 : 0.0;
+        g.reenter_rate = r.chance(0.3) ? 0.3 : 0.0;
+        if (r.chance(0.004))
+        {
+            // a long trajectory (more than 64 segments), few integration steps
+            g.op(OP_SET_INIT, {0, g.rnd(26), g.rnd(1u << 30), g.rnd(2), BAD_NONE, 0, 0, 2});
+            g.op(OP_SET_FLAGS, {0, r.chance(0.5) ? 0 : g.rnd(256)});
+            g.op(OP_SET_K, {0, r.range(1, 3)});
+            g.eval(0, CHK_TWIN | CHK_FD, 0, 0, (int)g.rnd(3));
+            break;
+        }
         int mask = -1;
         if (thorough && index < 4096) mask = (int)(index % 256); // every flag combination at least once per universe share
         g.configure(0, true, mask);
@@ -174,6 +186,7 @@ inline Plan gen_plan(uint64_t seed, uint64_t index, Tier tier, int profile, bool
     {
         g.max_N = 10;
         g.abort_rate = r.chance(0.5) ? 0.3 : 0.0;
+        g.reenter_rate = r.chance(0.3) ? 0.25 : 0.0;
         g.configure(0, true);
         if (r.chance(0.8)) { g.op(OP_CONSTRUCT, {1, g.rnd(3), g.rnd(5), g.rnd(5), g.rnd(4)}); g.configure(1, true); }
         int n = (int)r.range(3, thorough ? 14 : 9);
@@ -192,7 +205,7 @@ inline Plan gen_plan(uint64_t seed, uint64_t index, Tier tier, int profile, bool
                 g.op(OP_EVAL, {hh, xs, 0, wsel, 0, 0, 0, 1, CHK_TWIN | CHK_TRACE, 0, 0});
             }
             else if (u < 0.40) g.op(OP_CHECKGRAD, {g.rnd(2), g.rnd(1u << 30), r.range(1, 4), r.chance(0.7) ? 1 : 0, 0, 0, 0, 0, 0, 1 + g.rnd(1u << 20)}, {0.0});
-            else { int64_t hh = g.rnd(2); int wsel = (int)r.range(1, 4); g.eval(hh, CHK_TWIN, wsel); } // veteran workspaces (and the built-in one)
+            else { int64_t hh = g.rnd(2); int wsel = (int)r.range(1, 4); int xm = r.chance(0.25) ? 6 : 0; g.eval(hh, CHK_TWIN | (xm ? CHK_TRACE : 0), wsel, xm); } // veteran workspaces (and the built-in one)
         }
         break;
     }
@@ -200,6 +213,7 @@ inline Plan gen_plan(uint64_t seed, uint64_t index, Tier tier, int profile, bool
     {
         g.max_N = 6;
         g.abort_rate = r.chance(0.4) ? 0.25 : 0.0;
+        g.reenter_rate = r.chance(0.3) ? 0.25 : 0.0;
         // thorough tier: every order in which one thread can process the segments, for N = 1..5 (1+2+6+24+120 = 153
         // permutations), each on a fresh random problem/configuration; the block repeats so that every order/dimension
         // universe sees every permutation several times
@@ -275,12 +289,24 @@ inline Plan gen_plan(uint64_t seed, uint64_t index, Tier tier, int profile, bool
     case P_C19:
     {
         g.max_N = 4;
+        if (r.chance(0.1))
+        {
+            // one functor checked in isolation: only a time cost (no running cost, no waypoint cost, no energy), which
+            // either is correct or never writes its gradient
+            p.ci[7] = 4;
+            g.set_init(0, g.pick_N());
+            g.op(OP_SET_FLAGS, {0, g.rnd(256)});
+            g.op(OP_SET_RHO, {0, 0});
+            g.op(OP_SET_K, {0, r.range(1, 8)});
+            g.op(OP_CHECKGRAD, {0, g.rnd(1u << 30), g.rnd(5), 0, r.chance(0.6) ? 4 : 0, 0, 0, 0, 0, 0}, {1.0});
+            break;
+        }
         g.configure(0, true);
         int n = (int)r.range(1, 3);
         for (int q = 0; q < n; ++q)
         {
             if (q > 0 && r.chance(0.4)) g.configure(0, r.chance(0.3));
-            int functor = r.chance(0.4) ? 0 : (int)r.range(1, 3);
+            int functor = r.chance(0.4) ? 0 : (int)r.range(1, 3); // (functor 4, "never writes its gradient", is used with the isolated time cost above)
             double delta = (r.chance(0.5) ? 1.0 : -1.0) * r.logreal(1e-3, 1e3);
             g.op(OP_CHECKGRAD, {0, g.rnd(1u << 30), g.rnd(5), r.chance(0.7) ? 1 : 0, functor, g.rnd(16), g.rnd(8), r.chance(0.12) ? 1 : 0, r.chance(0.25) ? 1 : 0, r.chance(0.1) ? 1 + g.rnd(1u << 20) : 0}, {delta});
         }
